@@ -84,7 +84,8 @@ def scalar_catalogue(tier, rnd):
             cat.append(('str', T('not', 0, [T(k, v)]), '!trompeloeil::%s(std::string("%s"))' % (k, s)))
     cat.append(('str', T('val', 1), 'std::string("a")'))
     # regular expressions: accept <=> non-null and found (found = independent std::regex_search in the driver)
-    for pat, flags in (('a', ''), ('^b', ''), ('A', 'std::regex_constants::icase'), ('b$', ''), ('a.*b', '')):
+    for pat, flags in (('a', ''), ('^b', ''), ('A', 'std::regex_constants::icase'), ('b$', ''), ('a.*b', ''),
+                       ('^$', ''), ('.*', ''), ('a*', ''), ('^(ab)?$', ''), ('', '')):        # patterns that are found in the empty string
         arg = '"%s"' % pat + (', ' + flags if flags else '')
         cat.append(('cstr:' + pat + ':' + flags, T('re'), 'trompeloeil::re(%s)' % arg))
         cat.append(('cstr:' + pat + ':' + flags, T('not', 0, [T('re')]), '!trompeloeil::re(%s)' % arg))
